@@ -46,6 +46,10 @@ struct Deep { v: i32 }
 #[derive(Interface, Clone)]
 #[graphql(field(name = "id", ty = "&i32"))]
 enum Node { Pub(Pub), Other(Other) }
+/// interface inheritance: Node implements Super, and so do the objects behind Node
+#[derive(Interface, Clone)]
+#[graphql(field(name = "id", ty = "&i32"))]
+enum Super { Node(Node) }
 #[derive(Interface, Clone)]
 #[graphql(visible = "vis_b", field(name = "id", ty = "&i32"))]
 enum Tagged { Pub(Pub), Hid(Hid) }
@@ -60,6 +64,8 @@ struct Query;
 impl Query {
     async fn node(&self) -> Option<Node> { None }
     async fn tagged(&self) -> Option<Tagged> { None }
+    #[graphql(name = "super")]
+    async fn super_(&self) -> Option<Super> { None }
     async fn u(&self) -> Option<U> { None }
     async fn pubs(&self) -> Vec<Pub> { vec![] }
     async fn searchable(&self) -> Option<Searchable> { None }
